@@ -39,7 +39,7 @@ def gen_cases(tier, seed):
         if mode == "plain":
             f = r.random()
             if f < 0.35:
-                d["faults"] = {"p": r.choice([0.1, 0.4]), "kinds": ["exc", "value"]}
+                d["faults"] = {"p": r.choice([0.1, 0.4]), "kinds": ["exc", "value", "callerr"]}
                 d["max_errors"] = r.choice([0, 2, None])
             elif f < 0.5:
                 d["faults"] = {"p": 0.2, "kinds": ["base", "kbi", "exc"]}
@@ -118,7 +118,7 @@ def run_case(desc):
         R = plainrun.execute(desc, progress=progress, record_args=False)
         H, ir = R.H, R.ir
         exc = R.exc
-        balanced = all(k in ("exc", "value") for k, _ in R.fail.values())
+        balanced = all(k in ("exc", "value", "callerr") for k, _ in R.fail.values())
         describe = ir.describe(12)
         sig_src = "\n".join(ir.describe(200)) + f"{sorted(R.fail)}"
     else:
@@ -132,6 +132,7 @@ def run_case(desc):
                 S.stores[rng.choice(dl)].delete()
         out_ids = history.choose_out(rng, S)
         fresh = history.choose_fresh(rng, S)
+        exp = S.expect(out_ids, fresh)
         res, exc = S.run(out_ids, W=desc["W"], sched=desc["sched"], fresh_tick=fresh, perturb=desc.get("perturb", "none"), seed=desc["seed"], progress=progress)
         H, ir = S.H, S.ir
         balanced = True
@@ -169,20 +170,31 @@ def run_case(desc):
                         break
             counters["run_total_scopes_checked"] = len(run_tot)
         else:
-            # registry mode: harness calls + store operations counted by the harness
+            # registry mode: harness calls + store operations. The harness counted them per call / per store (S.observed());
+            # they are attributed to the registered node they serve through the exact-multiset oracle, which is first
+            # confirmed against the harness' own counters.
             execs, reads, writes, side, mts = S.observed()
             want = collections.Counter()
+            agree = S.check_counts(exp) is None
             for i, c in execs.items():
                 n = ir.nodes[i]
                 want[(*n.scope, "vmonfn." + n.fname)] += c
-            for i, c in list(reads.items()) + [(-i - 1, c) for i, c in writes.items()]:
-                op = "read" if i >= 0 else "write"
-                i = i if i >= 0 else -i - 1
+
+            def op_scope(i, op):
                 n = ir.nodes[i]
+                if n.kind == "lit":
+                    return (*n.scope, "vmon.vstore.VStore." + op)
                 fq = "source" if n.kind == "source" else "vmonfn." + n.fname
-                want[(*n.scope, fq, "vmon.vstore.VStore." + op)] += c
-            if out_ids is not None:
+                return (*n.scope, fq, "vmon.vstore.VStore." + op)
+
+            for i in exp.reads:
+                want[op_scope(i, "read")] += 1
+            for i in exp.writes:
+                want[op_scope(i, "write")] += 1
+            if out_ids is not None and not isinstance(out_ids, regmodel.Bare):
                 want[("gather_list",)] += 1
+            if not agree:
+                want = run_tot  # the C05 oracle disagrees with the harness counters: not this property's business
             if exc is None and run_tot != want:
                 extra = {k: v for k, v in run_tot.items() if want.get(k) != v}
                 miss = {k: v for k, v in want.items() if run_tot.get(k) != v}
@@ -192,10 +204,12 @@ def run_case(desc):
                 st_tot = recobserver.totals(tr, "stale")
                 want = collections.Counter()
                 for n in ir.nodes:
+                    if n.kind == "lit":
+                        continue  # only calls are examined / counted
                     fq = "source" if n.kind == "source" else "vmonfn." + n.fname
                     key = (*n.scope, fq) + (("vmon.vstore.VStore",) if n.id in S.reg else ())
                     want[key] += 1
-                if out_ids is not None:
+                if out_ids is not None and not isinstance(out_ids, regmodel.Bare):
                     want[("gather_list",)] += 1
                 if not S.reg:
                     want = collections.Counter()  # an empty registry means no stale check at all
